@@ -226,8 +226,8 @@ pub fn footers(thorough: bool) -> Vec<(String, bool)> {
     // every spelling of an offset / a rule time: sign x hour x optional minutes x optional seconds
     let mut spelled: Vec<(String, bool, bool)> = vec![]; // (text, negative or explicit sign, beyond 24 h)
     for sign in ["", "-", "+"] {
-        for h in [0u32, 1, 2, 9, 12, 25] {
-            for ms in [None, Some((0u32, None)), Some((30, None)), Some((45, Some(0u32))), Some((30, Some(28)))] {
+        for h in [0u32, 1, 2, 9, 12, 24, 25, 167] {
+            for ms in [None, Some((0u32, None)), Some((30, None)), Some((59, None)), Some((45, Some(0u32))), Some((30, Some(28))), Some((59, Some(59)))] {
                 let mut t = format!("{}{}", sign, h);
                 if let Some((m, sec)) = ms {
                     t.push_str(&format!(":{:02}", m));
@@ -252,6 +252,24 @@ pub fn footers(thorough: bool) -> Vec<(String, bool)> {
         v.push((format!("CET-1CEST,M3.5.0/{},M10.5.0", t), *neg || *big));
         v.push((format!("CET-1CEST,M3.5.0,M10.5.0/{}", t), *neg || *big));
         v.push((format!("AEST-10AEDT,M10.1.0/{},M4.1.0/{}", t, t), *neg || *big));
+    }
+    // every month x week x weekday once as the start and once as the end of daylight time
+    for m in 1..=12u32 {
+        for w in 1..=5u32 {
+            for d in 0..=6u32 {
+                let m2 = (m + 5) % 12 + 1;
+                v.push((format!("CET-1CEST,M{}.{}.{},M{}.{}.{}", m, w, d, m2, (w + 1) % 5 + 1, (d + 3) % 7), false));
+                v.push((format!("AEST-10AEDT,M{}.{}.{}/2,M{}.{}.{}/3", m2, (w + 2) % 5 + 1, (d + 5) % 7, m, w, d), false));
+            }
+        }
+    }
+    // every Julian day (both forms) once as the start and once as the end
+    for n in 1..=365u32 {
+        let other = (n + 181) % 365 + 1;
+        if thorough || n % 7 == 3 || [1, 59, 60, 61, 365].contains(&n) {
+            v.push((format!("CET-1CEST,J{},J{}", n, other), false));
+            v.push((format!("CET-1CEST,{},{}", n - 1, other - 1), false));
+        }
     }
     let times: Vec<(&str, bool)> = vec![("", false), ("/0", false), ("/1:30", false), ("/3", false), ("/24", false), ("/-1", true), ("/26", true)];
     let zones = [("CET-1CEST", ""), ("EST5EDT", ""), ("AEST-10AEDT", ""), ("<+0330>-3:30<+0430>", ""), ("IST-1GMT0", ""), ("NZST-12NZDT", "")];
